@@ -70,3 +70,16 @@ Definition v_add (a b : val) : val :=
   match a, b with VN x, VN y => VN (x + y) | _, _ => VStuck end.
 Definition v_is_true (v : val) : bool :=
   match v with VC c [] => (c =? "true")%string | _ => false end.
+
+(* `x as u16`, Option::context(XSnafu) *)
+Definition v_u16 (v : val) : val :=
+  match v with VN x => VN (x mod 65536) | _ => VStuck end.
+Definition v_context (err : string) (v : val) : val :=
+  match v with
+  | VC c [x] => if (c =? "Some")%string then VC "Ok" [x]
+                else if (c =? "Ok")%string then VC "Ok" [x]
+                else if (c =? "Err")%string then VC "Err" [VC err [x]]
+                else VStuck
+  | VC c [] => if (c =? "None")%string then VC "Err" [VC err []] else VStuck
+  | _ => VStuck
+  end.
